@@ -264,15 +264,20 @@ fn emit_fmt(out: &mut Out, v: &dyn Var, img: &[u8]) {
     let dw = h.display_spec();
     let conv_allocs = d.a + t.a;
     let conv_panic = if d.p.is_empty() { t.p.clone() } else { d.p.clone() };
-    let mut b1 = vec![0u8; v.len_str()];
+    // destinations 0 / 9 / 18 bytes longer than needed (chosen by the value), cut to the size the call returned
+    let slack = (img.iter().fold(0usize, |a, &b| a + b as usize) % 3) * 9;
+    let mut b1 = vec![0x2au8; v.len_str() + slack];
     let r1 = h.store_str(&mut b1, true);
     note(r1.a, &r1.p);
-    let mut b2 = vec![0u8; v.len_str() - 2];
+    b1.truncate(r1.v.clone().and_then(|r| r.ok()).unwrap_or(0));
+    let mut b2 = vec![0x2au8; v.len_str() - 2 + slack];
     let r2 = h.store_str(&mut b2, false);
     note(r2.a, &r2.p);
-    let mut b3 = vec![0u8; v.size()];
+    b2.truncate(r2.v.clone().and_then(|r| r.ok()).unwrap_or(0));
+    let mut b3 = vec![0x2au8; v.size() + slack];
     let r3 = h.store_bytes(&mut b3);
     note(r3.a, &r3.p);
+    b3.truncate(r3.v.clone().and_then(|r| r.ok()).unwrap_or(0));
     let acc = h.accessors();
     note(acc.a, &acc.p);
     let mut quart = Vec::with_capacity(v.nb());
@@ -516,12 +521,13 @@ pub fn run_c04(out: &mut Out, rng: &mut Rng, thorough: bool, only: Option<&str>)
                 emit_fmt_sweep(out, v, &base, pos);
             }
             // one position swept over an otherwise UNIFORM value (run detection, lane-wise shortcuts)
-            let x = *rng.pick(&[0xffu8, 0x00, 0x5a, 0xe4]);
-            let base = vec![x; n];
-            for pos in 0..n {
-                let k = pos.wrapping_sub(c + 2) % 8;
-                if pos < c + 2 || thorough || k == 0 || k == 6 || k == 7 || pos == n - 1 {
-                    emit_fmt_sweep(out, v, &base, pos);
+            for x in [*rng.pick(&[0x00u8, 0x12, 0x99, 0x57]), *rng.pick(&[0xffu8, 0xe4, 0xab, 0xca])] {
+                let base = vec![x; n];
+                for pos in 0..n {
+                    let k = pos.wrapping_sub(c + 2) % 8;
+                    if pos < c + 2 || thorough || k == 0 || k == 7 || pos == n - 1 {
+                        emit_fmt_sweep(out, v, &base, pos);
+                    }
                 }
             }
         }
@@ -723,6 +729,23 @@ pub fn run_c05(out: &mut Out, rng: &mut Rng, thorough: bool, only: Option<&str>)
                             emit_parse(out, v, "bytes", "None", &s);
                         }
                     }
+                }
+            }
+        }
+        // (b4') BOTH characters of one digit pair replaced by the same non-hexadecimal byte (NUL, space, 0xFF ...):
+        // every header pair, the first and last body pairs and two random ones
+        for with_prefix in [true, false] {
+            let canon = hex_of(v, &image(v, rng), with_prefix);
+            let off = if with_prefix { 2 } else { 0 };
+            let pairs_total = (canon.len() - off) / 2;
+            let mut at: Vec<usize> = (0..(v.ck_len() + 3)).collect();
+            at.extend([pairs_total - 1, pairs_total - 2, v.ck_len() + 2 + rng.below((pairs_total - v.ck_len() - 2) as u64) as usize]);
+            for &pi in &at {
+                for &bad in &[0x00u8, 0x20, 0xff, b'/', b':', b'G'] {
+                    let mut s = canon.clone();
+                    s[off + 2 * pi] = bad;
+                    s[off + 2 * pi + 1] = bad;
+                    emit_parse(out, v, "bytes", "None", &s);
                 }
             }
         }
@@ -1142,7 +1165,7 @@ pub fn run_c13(out: &mut Out, rng: &mut Rng, thorough: bool, only: Option<&str>)
                 for cr in 0..10u64 {
                     let l = mk(rng, cl);
                     let r = if cl == cr && rng.chance(1, 2) { l.clone() } else { mk(rng, cr) };
-                    emit_cmpstr(out, v, &l, &r, false);
+                    emit_cmpstr(out, v, &l, &r, v.name() == "Normal" && (cl + cr) % 2 == 0);
                 }
             }
         }
